@@ -62,7 +62,7 @@ CHECKS = {
     ),
     "C06": dict(
         technique="exhaustive product-lattice enumeration of scripted proposal/accept draws on the real kernels with a closed-form float64 oracle and reverse-move closure",
-        text="Per unit (kernel variant x model family x block layout x interface) the full product lattice(x) x scripted Gaussian draws (0, +-e_i, product lattice) x step sizes x scripted uniforms x epoch types is executed on the real kernel.transition, plus the reverse move from every realised proposal. Oracle (float64, analytic gradient/Hessian): proposal affine in z with the DOCUMENTED mean and covariance; reported alpha = min(1, pi(x')q(x|x')/(pi(x)q(x'|x))); detailed balance of the forward/backward pair; solve/mvn_log_prob/mvn_sample on all 2x2 and 3x3 factor lattices; an eager key-discipline stage checks that within a transition no PRNG key is consumed by two draws nor equals the kernel's input key, and that transitions with different input keys share no draw key.",
+        text="Per unit (kernel variant incl. MH proposals that declare +-inf corrections x model family x block layout x interface incl. the legacy lsl.GooseModel and auto_update off) the full product lattice(x) x scripted Gaussian draws (0, +-e_i, product lattice) x step sizes x scripted uniforms x epoch types is executed on the real kernel.transition, plus the reverse move from every realised proposal. Oracle (float64, analytic gradient/Hessian): proposal affine in z with the DOCUMENTED mean and covariance; reported alpha = min(1, pi(x')q(x|x')/(pi(x)q(x'|x))); detailed balance of the forward/backward pair; solve/mvn_log_prob/mvn_sample on all 2x2 and 3x3 factor lattices; an eager key-discipline stage checks that within a transition no PRNG key is consumed by two draws nor equals the kernel's input key, and that transitions with different input keys share no draw key.",
         note="Lattice statement only; draws scripted via ScriptedPRNG (traced inputs under jit+vmap, eager sub-lattice cross-checked with a recording interface); families Gaussian, logistic, Poisson, Gamma-Poisson(log) through DictInterface plus Poisson through a real lsl.Model; tolerance alpha 2e-4 absolute; where alpha == 0 hides the proposal it is predicted from the documented law; the accept rule u < alpha is C05's subject.",
         ref="3/C06",
     ),
@@ -86,7 +86,7 @@ CHECKS = {
     ),
     "C14": dict(
         technique="exhaustive configuration x entry-point x value-lattice enumeration on built models, checked against a change-of-variables reference (scipy float64 + closed-form bijectors)",
-        text="Full product of 13 distribution families x bijector option (instance, class with args, default) x entry point (Var.transform(instance), Var.transform(cls, args), Var.transform(None), auto_transform at build, deprecated GraphBuilder.transform in the same forms) x parameter kind (constants; distribution parameters as variables incl. a hyper-prior; bijector arguments as variables; both) x build style (GraphBuilder.add(x), add(sink only), lsl.Model([x]), lsl.Model([sink])) x shape, per_obs and parameter flag, plus chained (double) transforms of the new variable; every variable handed to the distribution or bijector must be in the built model. Each case is a real model walked over 7 (thorough 13) unconstrained values by assignment, then every parameter and argument variable is re-assigned. Oracle: original value equals b(t) and is unchanged by the transformation, new log_prob = log p(b(t)) + log|b'(t)|, Model.log_prob / log_prior / log_lik, parameter flag moved, original keeps no distribution, per_obs carried over.",
+        text="Full product of 13 distribution families x bijector option (instance, class with args, default) x entry point (Var.transform(instance), Var.transform(cls, args), Var.transform(None), auto_transform at build, deprecated GraphBuilder.transform in the same forms) x parameter kind (constants; distribution parameters as variables incl. a hyper-prior; bijector arguments as variables; both) x build style (GraphBuilder.add(x), add(sink only), lsl.Model([x]), lsl.Model([sink])) x shape, per_obs and parameter flag, plus chained (double) transforms of the new variable (first step through Var.transform or the deprecated method, second step through either); every variable handed to the distribution or bijector must be in the built model. Each case is a real model walked over 7 (thorough 13) unconstrained values by assignment, then every parameter and argument variable is re-assigned. Oracle: original value equals b(t) and is unchanged by the transformation, new log_prob = log p(b(t)) + log|b'(t)|, Model.log_prob / log_prior / log_lik, parameter flag moved, original keeps no distribution, per_obs carried over.",
         note="TFP's densities and bijectors trusted as such but every number is compared with an independent float64 scipy or closed-form reference; values to 2e-5 relative, log-densities to 2e-4*(1+|log p|+|log b'|); lattice points only.",
         ref="3/C14",
     ),
